@@ -125,11 +125,8 @@ def run (c : Cfg) : (fuel : Nat) → (script : List Outcome) → (first : Bool) 
         let s := s.emit (.attempt s.now true)
         -- in-handler reconnect(): no wait, delay register untouched
         let s := { s with now := s.now + t, proto := 3 }
-        match rest with
-        | .refuse _ :: _ =>
-          -- the socket factory fails inside the CONNACK handler: OSError leaves loop_read(), _loop() and loop_forever()
-          (s.emit (.attempt s.now false)).emit .raised
-        | _ => run c fuel rest false s
+        -- (a socket failure of this retry is reported like any failed attempt: the next item is handled as usual)
+        run c fuel rest false s
       else if s.proto = 4 then
         -- MQTT 3.1.1 with reconnect_on_failure off: _handle_connack returns MQTT_ERR_PROTOCOL before any callback
         let s := s.emit (.attempt s.now true)
